@@ -361,6 +361,7 @@ func (d *EntryDecoder) Decode(entry *Entry) error {
 			return err
 		}
 		entry.Time = t.UnixNano()
+		entry.Goroutine = 0 // the field is omitted when zero: do not keep the previous entry's
 		if len(m[3]) > 0 {
 			goroutine, err := strconv.Atoi(string(m[3]))
 			if err != nil {
